@@ -103,6 +103,16 @@ CHECKS = {
         "note": ENGINE_NOTE + " The grid of call kinds is enumerated in the harness; ListSpecifications (documented as unimplemented) is not called.",
         "technique": "caller mutations as stuttering steps of the TLA+ model; TLC checks dump equality on mutate-and-redump traces recorded from the real API",
     },
+    "C18": {
+        "level": "model_checking",
+        "text": "Position-coded content is uploaded through the real bucket (11 small chunk sizes, lengths around multiples of the chunk size, chunk size from bucket or "
+                "upload options, random write partitions incl. empty writes, tracked mode with suspend/resume/claim, aborts, deletes with cleanup) and, in every run, around "
+                "the 16 MiB upload buffer (seven chunk sizes with different remainders, lengths B-1 ... 2B+3); the harness compares bytes; the recorded Write/Suspend steps, "
+                "stored chunk table, file record, leftovers and every step of Read/Skip/Seek scripts are judged by TLC with GridFS.tla at the real sizes; MCGridFS proves "
+                "well-formedness of closed uploads for all small (B, C) and write partitions with suspends.",
+        "note": "Byte equality is observed in the harness; counts, positions, tables and records are judged by TLC. B is gridfs.UploadBufferSize (or the chunk size if larger).",
+        "technique": "TLA+ model of the upload buffer/chunk arithmetic and of the reference reader checked by TLC; code->spec validation of recorded uploads and download scripts",
+    },
     "C19": {
         "level": "model_checking",
         "text": "States with 0-2 TTL indexes (incl. expireAfterSeconds 0, a partial TTL index) next to other indexes are built through the driver API over a pool of 20 "
